@@ -144,6 +144,21 @@ func enumPositions(v cty.Value, path string, allowDynamic bool, emit func(string
 			return
 		}
 		es := v.AsValueSlice()
+		if ty.IsSetType() {
+			// set inflation: one extra unknown member admitting an existing member (see WeakenOpts.InflateSets)
+			for i := range es {
+				if es[i].IsMarked() || !es[i].IsKnown() {
+					continue
+				}
+				for _, u := range AllAdmittingUnknowns(es[i], false) {
+					if u.IsKnown() {
+						continue
+					}
+					cp := append(append([]cty.Value(nil), es...), u)
+					emit(fmt.Sprintf("%s{+%d}", path, i), u, wrap(cty.SetVal(cp)))
+				}
+			}
+		}
 		for i := range es {
 			i := i
 			childDyn := allowDynamic && ty.IsTupleType()
